@@ -244,7 +244,7 @@ def batch_number_setup(I, scope):
 
 
 def units(tier):
-    return ['result_with_error', 'array_result', 'flip_bins', 'batch_number', 'native', 'native_apollo3']
+    return ['result_with_error', 'array_result', 'flip_bins', 'batch_number', 'parse_lock', 'native', 'native_ifp', 'native_apollo3']
 
 
 def _replay_native(name, inp):
@@ -261,6 +261,14 @@ def run_unit(unit, tier, seed, known):
     logging.disable(logging.CRITICAL)
     warnings.filterwarnings('ignore')
     D = lambda res: prop.discharge(res, tier, ID, lambda m, r: {'note': 'see model text'}, _replay_native)      # noqa
+    if unit == 'native_ifp':
+        from . import ifp_native
+        return {'bounded': [ifp_native.sweep(tier, seed)]}
+    if unit == 'parse_lock':
+        # the grammar rewrites module-level definitions while it parses (dimensions of the KIJ matrices, widths of the IFP tables): a parse is only the reading of ITS
+        # listing if the whole parseString call runs under PYPARSING_LOCK (structural obligation shared with C11; tasks parse from 10 worker threads by default)
+        from . import C11
+        return C11.run_unit('worker', tier, seed, known)
     if unit == 'native':
         out = ln.sweep(tier, seed)
         seen = []
